@@ -427,7 +427,19 @@ func (f *frame) runGhostRet(st *State, vals []Val) {
 
 func (f *frame) ghostAssign(st *State, env *specEnv, g GhostStmt) {
 	ex := f.ex
-	rhs := env.eval(g.RHS)
+	var rhs Val
+	ok := func() (ok bool) {
+		defer func() {
+			if r := recover(); r != nil {
+				ok = false
+			}
+		}()
+		rhs = env.eval(g.RHS)
+		return true
+	}()
+	if !ok {
+		return // the source variables of the ghost statement are not in scope on this path
+	}
 	switch l := g.LHS.(type) {
 	case *EIdent:
 		st.ghost[l.Name] = rhs
